@@ -237,6 +237,23 @@ pub fn record(seed: u64, tier: &str, out: &str) {
             ev_cl(&mut t, s20, (if k % 4 >= 2 { y1 } else { x0 } + rng.range_i64(-(50 << 20), 50 << 20) as i128, if k % 4 >= 2 { x0 } else { y1 }), 200 * u20 + rng.below(1 << 24) as i128, a, b, "steep line");
         }
     }
+    // ---- large circles against axis-parallel lines 2^-23 .. 2^-21 (1.2e-7 .. 4.8e-7) inside or outside tangency: far
+    // outside the library's 1e-9, so the kind is exact, and a tangent point returned instead would be off the circle
+    let s30 = 30u32;
+    let u30 = 1i128 << 30;
+    for k in 0..(if thorough { 2000 } else { 300 }) {
+        // (everything stays within coordinates of 1e3)
+        let c = (rng.range_i64(-(90 << 20), 90 << 20) as i128 * 1024, rng.range_i64(-(90 << 20), 90 << 20) as i128 * 1024);
+        let r = rng.range_i64(500, 899) as i128 * u30 + rng.below(1 << 30) as i128;
+        let delta = (1i128 << (7 + rng.below(3))) * if k % 2 == 0 { 1 } else { -1 }; // 2^-23, 2^-22, 2^-21 at scale 2^-30
+        let off = r - delta; // distance of the line from the centre
+        let w = rng.range_i64(1, 200) as i128 * u30;
+        let (a, b) = match k % 4 {
+            0 | 1 => ((c.0 - w, c.1 + off), (c.0 + 2 * w, c.1 + off)),   // horizontal, above
+            _ => ((c.0 - off, c.1 - w), (c.0 - off, c.1 + 3 * w)),       // vertical, left
+        };
+        ev_cl(&mut t, s30, c, r, a, b, if delta > 0 { "large circle, line 1e-7 inside tangency" } else { "large circle, line 1e-7 outside tangency" });
+    }
     // ---- constructed tangencies at arbitrary dyadic positions (Pythagorean triples), and near-tangencies
     let m = if thorough { 6_000 } else { 900 };
     for k in 0..m {
